@@ -88,6 +88,13 @@ fn main() {
             rep.violations.extend(laws.violations);
             finish(main.id, main.level, tier, seed, &main.rule, &main.assumptions, &rep, t0.elapsed().as_secs_f64(), &findings)
         }
+        "C19" => {
+            // one worker: a fork() for a helper process briefly duplicates every open descriptor of this process,
+            // including LOCK files held by cases running on other worker threads, which would make their locks
+            // outlive them for an instant
+            std::env::set_var("VERIF_JOBS", "1");
+            run_model(vec![(skv_verif::engine_lock::c19(), 1200, 24000)], tier, replay)
+        }
         "C18" => run_model(vec![(skv_verif::fmt_bptree::c18(60, false), 4000, 60000), (skv_verif::fmt_bptree::c18(300, false), 300, 6000), (skv_verif::fmt_bptree::c18(60, true), 400, 6000)], tier, replay),
         "C01" => run_model(vec![(props::c01(), 20000, 400000)], tier, replay),
         "C06" => run_model(vec![(props::c06(), 6000, 120000)], tier, replay),
